@@ -289,7 +289,9 @@ Fixpoint wp (e : expr) : bool :=
   | ELit v => is_json v
   | ERaw s => raw_ok s
   | EParen x => wp x
-  | EMSList es => negb (match es with [] => true | _ => false end) && forallb wp es
+  | EMSList es =>
+    (* "[*]" is the list wildcard, not a one-element multi-select list *)
+    negb (match es with [] => true | [EValProj None RNone] => true | _ => false end) && forallb wp es
   | EMSHash kvs =>
     negb (match kvs with [] => true | _ => false end) &&
     forallb (fun kv : bool * bytes * expr => (if fst (fst kv) then true else valid_unquoted (snd (fst kv))) && wp (snd kv)) kvs
